@@ -103,19 +103,23 @@ func newC01World(types []c01Type, bound bool) *c01World {
 
 // judge one delivered datagram from the responses (reply/result) on all connections.
 type c01Case struct {
-	class   model.CmdClassifierType
-	ack     bool
-	dest    string // server | client | nofeature | noentity | nm
-	fn      model.FunctionType
-	peer    string
-	expect  string // reply | ok | err | none | atmostone (structural only)
-	payload string // expected reply payload (canonical JSON), "" = don't compare
+	class    model.CmdClassifierType
+	ack      bool
+	ackFalse bool   // the header carries ackRequest=false (must be treated like an absent one)
+	dest     string // server | client | nofeature | noentity | nm
+	fn       model.FunctionType
+	peer     string
+	expect   string // reply | ok | err | none | atmostone (structural only)
+	payload  string // expected reply payload (canonical JSON), "" = don't compare
 }
 
 func (c *c01World) deliver(cs c01Case, src, dst *model.FeatureAddressType, cmd model.CmdType, ref *model.MsgCounterType) []string {
 	pe := c.w.Peers[cs.peer]
 	m := c.w.Mark()
 	d := pe.Datagram(src, dst, cs.class, cs.ack, ref, cmd)
+	if cs.ackFalse {
+		d.Header.AckRequest = util.Ptr(false)
+	}
 	pe.Deliver(d)
 	rt.WaitIdle()
 	var viol []string
@@ -207,7 +211,7 @@ func c01Families(thorough bool) []*engine.IFamily {
 	types := c01Types()
 	classes := []model.CmdClassifierType{model.CmdClassifierTypeRead, model.CmdClassifierTypeReply, model.CmdClassifierTypeNotify, model.CmdClassifierTypeWrite, model.CmdClassifierTypeCall, model.CmdClassifierTypeResult}
 	matrix := &engine.IFamily{Name: "feature-matrix", Chunks: len(types) * 2,
-		Rule: fmt.Sprintf("classifier {read,reply,notify,write,call,result} x every function registered for each of the %d feature types the factory accepts (local server and client feature of every type, all functions readable, list functions writable) x ackRequest {absent,true} x destination {server feature, client feature, non-existent feature, non-existent entity} x peer {A,B} x prior state {no bindings; A bound and subscribed, B subscribed}; non-trivial: a response is expected", len(types)),
+		Rule: fmt.Sprintf("classifier {read,reply,notify,write,call,result} x every function registered for each of the %d feature types the factory accepts (local server and client feature of every type, all functions readable, list functions writable) x ackRequest {absent,true,false} x destination {server feature, client feature, non-existent feature, non-existent entity} x peer {A,B} x prior state {no bindings; A bound and subscribed, B subscribed}; non-trivial: a response is expected", len(types)),
 		Run: func(chunk int) engine.IResult {
 			var r engine.IResult
 			now := staticNow
@@ -235,9 +239,10 @@ func c01Families(thorough bool) []*engine.IFamily {
 					pt := reflect.TypeOf(fd.DataCopyAny()).Elem()
 					for _, peer := range []string{"A", "B"} {
 						for _, class := range classes {
-							for _, ack := range []bool{false, true} {
+							for _, av := range []int{0, 1, 2} { // ackRequest absent, true, explicitly false
+								ack, ackFalse := av == 1, av == 2
 								for _, dest := range []string{"server", "client", "nofeature", "noentity"} {
-									cs := c01Case{class: class, ack: ack, dest: dest, fn: fn, peer: peer}
+									cs := c01Case{class: class, ack: ack, ackFalse: ackFalse, dest: dest, fn: fn, peer: peer}
 									// source: requests come from the peer's client feature, data from its server feature
 									srcNum := uint(2*ti + 1)
 									if class == model.CmdClassifierTypeReply || class == model.CmdClassifierTypeNotify || class == model.CmdClassifierTypeResult {
@@ -326,7 +331,7 @@ func c01Families(thorough bool) []*engine.IFamily {
 			return r
 		}}
 	nm := &engine.IFamily{Name: "node-management", Chunks: 2,
-		Rule: "messages addressed to the NodeManagement feature from each peer's NodeManagement: read of every announced readable function (detailed discovery, use case, subscription, binding, destination list data), call of subscription/binding data, valid and invalid subscription/binding request and delete calls, use-case reply/notify, results with and without reference, each with ackRequest absent/true; non-trivial: a response is expected",
+		Rule: "messages addressed to the NodeManagement feature from each peer's NodeManagement: read of every announced readable function (detailed discovery, use case, subscription, binding, destination list data), call of subscription/binding data, valid and invalid subscription/binding request and delete calls, use-case reply/notify, results with and without reference, each with ackRequest absent/true/false; non-trivial: a response is expected",
 		Run: func(chunk int) engine.IResult {
 			var r engine.IResult
 			bound := chunk == 1
@@ -343,7 +348,8 @@ func c01Families(thorough bool) []*engine.IFamily {
 			rt.Execute(rt.Config{Horizon: 2000000}, func() {
 				types := c01Types()[:2]
 				for _, peer := range []string{"A", "B"} {
-					for _, ack := range []bool{false, true} {
+					for _, av := range []int{0, 1, 2} { // ackRequest absent, true, explicitly false
+						ack, ackFalse := av == 1, av == 2
 						c := newC01World(types, bound)
 						pe := c.w.Peers[peer]
 						nmL := c.w.L.NodeManagement()
@@ -389,7 +395,7 @@ func c01Families(thorough bool) []*engine.IFamily {
 							{"result without error number", model.CmdClassifierTypeResult, model.CmdType{ResultData: &model.ResultDataType{}}, ptrCtr(2), "none", "", ""},
 						}
 						for _, mg := range msgs {
-							cs := c01Case{class: mg.class, ack: ack, dest: "nm", fn: mg.fn, peer: peer, expect: mg.expect, payload: mg.pay}
+							cs := c01Case{class: mg.class, ack: ack, ackFalse: ackFalse, dest: "nm", fn: mg.fn, peer: peer, expect: mg.expect, payload: mg.pay}
 							r.Evals++
 							if mg.expect != "none" && mg.expect != "atmostone" {
 								r.Nontrivial++
@@ -408,7 +414,7 @@ func c01Families(thorough bool) []*engine.IFamily {
 			return r
 		}}
 	rejected := &engine.IFamily{Name: "writes-rejected-by-the-data-layer", Chunks: 1,
-		Rule: "authorised writes (binding present, function writable) that the update engine accepts or rejects: partial, selector and delete writes addressing a changeable or a write-protected element of each list type with a writecheck field, ackRequest absent/true; non-trivial: all",
+		Rule: "authorised writes (binding present, function writable) that the update engine accepts or rejects: partial, selector and delete writes addressing a changeable or a write-protected element of each list type with a writecheck field, ackRequest absent/true/false; non-trivial: all",
 		Run: func(chunk int) engine.IResult {
 			var r engine.IResult
 			specs := wcheckSpecs()
@@ -417,7 +423,8 @@ func c01Families(thorough bool) []*engine.IFamily {
 				rt.WaitIdle()
 				for _, sp := range specs {
 					f := c.local[sp.name]
-					for _, ack := range []bool{false, true} {
+					for _, av := range []int{0, 1, 2} { // ackRequest absent, true, explicitly false
+						ack, ackFalse := av == 1, av == 2
 						for _, target := range []int{1, 2} { // element 1 is changeable, element 2 is not
 							for _, fs := range []filterSpec{{partial: true}, {partial: true, partialSel: target}, {del: true, delSel: target}, {del: true, delSel: target, delElements: true}} {
 								fp, fd, ok := sp.filters(fs)
@@ -442,7 +449,7 @@ func c01Families(thorough bool) []*engine.IFamily {
 								if fp != nil {
 									cmd.Filter = append(cmd.Filter, *fp)
 								}
-								cs := c01Case{class: model.CmdClassifierTypeWrite, ack: ack, dest: "server", fn: sp.fn, peer: "A"}
+								cs := c01Case{class: model.CmdClassifierTypeWrite, ack: ack, ackFalse: ackFalse, dest: "server", fn: sp.fn, peer: "A"}
 								switch {
 								case target == 2:
 									cs.expect = "err"
